@@ -2,6 +2,7 @@
 from lib import cfg
 from rules import common
 
+CRATES = ("agdb",)
 EXPLANATION = (
     "Static PAIR rule over MIR CFGs: every path from a storage-transaction begin (Storage::transaction and its two "
     "forwarding aliases) to an *error* exit of the same function must pass the matching commit, otherwise the nesting "
